@@ -460,7 +460,7 @@ func (m *Model) ResolveEverything() error {
 				if kw == "$dynamicRef" && m.Draft != D2020 {
 					continue
 				}
-				if r := n.V.Get(kw); r != nil && r.K == jv.Str && r.S != "" {
+				if r := n.V.Get(kw); r != nil && r.K == jv.Str {
 					if _, _, err := m.ResolveRef(n, r.S); err != nil {
 						return fmt.Errorf("%s %s %q: %w", n.Ptr, kw, r.S, err)
 					}
@@ -482,7 +482,7 @@ func (m *Model) NamedURIs() map[string]bool {
 			continue
 		}
 		for _, kw := range []string{"$ref", "$dynamicRef"} {
-			if r := n.V.Get(kw); r != nil && r.K == jv.Str && r.S != "" {
+			if r := n.V.Get(kw); r != nil && r.K == jv.Str {
 				out[Resolve(n.Base, ParseURI(r.S)).WithoutFragment().String()] = true
 			}
 		}
@@ -622,7 +622,7 @@ func (m *Model) Eval(n *Node, inst *jv.V, scope []*Node) (Result, error) {
 	}
 
 	// $ref
-	if r := s.Get("$ref"); r != nil && r.K == jv.Str && r.S != "" {
+	if r := s.Get("$ref"); r != nil && r.K == jv.Str {
 		t, _, err := m.ResolveRef(n, r.S)
 		if err != nil {
 			return Result{}, err
@@ -644,7 +644,7 @@ func (m *Model) Eval(n *Node, inst *jv.V, scope []*Node) (Result, error) {
 		res.absorb(rr)
 	}
 	if m.Draft == D2020 {
-		if r := s.Get("$dynamicRef"); r != nil && r.K == jv.Str && r.S != "" {
+		if r := s.Get("$dynamicRef"); r != nil && r.K == jv.Str {
 			t, dyn, err := m.ResolveRef(n, r.S)
 			if err != nil {
 				return Result{}, err
